@@ -5382,7 +5382,9 @@ mod_webdav_copymove_b (request_st * const r, const plugin_config * const pconf, 
                 }
                 buffer_append_string_len(dst_path, sep, len);
                 buffer_append_string_len(dst_rel_path, sep, len);
-                if (buffer_clen(dst_path) >= PATH_MAX) {
+                if (buffer_clen(dst_path) >= PATH_MAX
+                    /* dst must not be same as src */
+                    || buffer_is_equal(dst_path, &r->physical.path)) {
                     http_status_set_error(r, 403); /* Forbidden */
                     return HANDLER_FINISHED;
                 }
